@@ -59,7 +59,12 @@ fn cart_inv(op: &Op, _ctx: &dyn Context, operands: &mut dyn CoordinateSet) -> us
         // to one of the poles. So we force the latitude to the relevant pole and
         // compute the height as |Z| - b
         if p < cutoff {
-            let phi = std::f64::consts::FRAC_PI_2.copysign(Z);
+            // (a NaN Z has a sign too, but certainly not a latitude)
+            let phi = if Z.is_nan() {
+                f64::NAN
+            } else {
+                std::f64::consts::FRAC_PI_2.copysign(Z)
+            };
             let h = Z.abs() - b;
             coord = Coor4D::raw(lam, phi, h, t);
             operands.set_coord(i, &coord);
